@@ -61,6 +61,26 @@ package compiler
 //@   ensures old(len(c.loopStack)) == 0 ==> len(c.loopStack) == 0
 //@   callpre (*compiler.Compiler).patchJump arg2 == endOffset && old(len(c.loopStack)) > 0 && exists(k, 0, len(old(c.loopStack[len(c.loopStack) - 1].breakJumps)), arg1 == old(c.loopStack[len(c.loopStack) - 1].breakJumps)[k])
 
+// ---- calls by name (C02): the VM resolves a call among its own built-ins only. The compiler records every function name it
+// ---- emits a call-by-name for; UnavailableCalls reports the recorded names the VM lacks, and a caller registers the bytecode
+// ---- only when there are none (cmd/glyph setupRoutes) - otherwise the module runs on the interpreter
+//@ spec func vmHas(name string) bool
+//@ func vm.HasBuiltin
+//@   trusted
+//@   pure
+//@   ensures result == vmHas(name)
+//@ func (*Compiler).compileFunctionCall
+//@   requires c != nil && expr != nil
+//@   ensures result == nil && !libcall(strings.HasPrefix, expr.Name, "ws.") ==> c.calls != nil && has(c.calls, expr.Name)
+//@   ensures forall(n, string, old(c.calls != nil && has(c.calls, n)) ==> c.calls != nil && has(c.calls, n))
+// (`trusted` keeps the frame - the names are collected in a new slice, which sort.Strings permutes - a summary; the `ensures` is checked against the body)
+//@ func (*Compiler).UnavailableCalls
+//@   trusted
+//@   requires c != nil
+//@   modifies nothing
+//@   ensures len(result) == 0 ==> forall(n, string, c.calls != nil && has(c.calls, n) ==> vmHas(n))
+//@   loop 1 invariant (len(names) == 0 ==> forall(n, string, visited(1, n) ==> vmHas(n))) && (cap(names) == 0 || fresh(names))
+
 // ---- constant folding (C03): a folded operation must be the literal the language oracle (contracts/lang.spec)
 // ---- assigns to the operation on those operands - the same oracle the VM's operators are verified against
 //@ spec func kindL(x ast.Literal) int = ite(typeis(x, ast.NullLiteral), 0, ite(typeis(x, ast.IntLiteral), 1, ite(typeis(x, ast.FloatLiteral), 2, ite(typeis(x, ast.StringLiteral), 3, ite(typeis(x, ast.BoolLiteral), 4, 7)))))
